@@ -87,6 +87,17 @@ ResolvesInv == S!Distinct(xf, items) => S!Resolves(xf, items)
 \* the unrestricted invariant, expected to be violated by the D14 class only (used to show the finding at design level)
 DistinctStrict == S!Distinct(xf, items)
 
+\* --- C17 at design level: what pickle and copy.deepcopy do to a section ---------------------------
+\* pickle rebuilds the list with list.extend (no renumbering) and every item from (original, session) -- identity;
+\* copy.deepcopy rebuilds the list through SectionItems.__deepcopy__, which also extends without renumbering.
+\* (Before the repair deepcopy went through SectionItems.append, i.e. CopyByAppend, which renumbers stale suffixes.)
+RECURSIVE CopyByAppend(_, _, _)
+CopyByAppend(src, x, acc) == IF src = <<>> THEN acc
+                             ELSE CopyByAppend(Tail(src), x, Renumber(Append(acc, Head(src)), x, S!Useful(Head(src).o)))
+CopyOf(it, x, how) == IF how = "deepcopy-by-append" THEN CopyByAppend(it, x, <<>>) ELSE it
+CopyKeepsNames  == \A how \in {"pickle", "deepcopy"} : CopyOf(items, xf, how) = items
+CopyByAppendKeepsNames == CopyOf(items, xf, "deepcopy-by-append") = items     \* violated: the design-level counterexample of D28
+
 \* --- (2) every explored transition, for replay into the implementation ---
 EmitEdge == Emit => PrintT(ToJson([xf |-> xf, pre |-> items, e |-> last', post |-> items']))
 \* states that differ only in the identities of their items, or in how they were reached, are the same state
